@@ -484,6 +484,17 @@ namespace occa {
       return ref->toJson(j, name);
     }
 
+    // A builtin is the registered object itself, not any dtype that shares its name.
+    // Checked first: the vector builtins (float2, int4, ...) are tuples as well
+    const dtype_t &dtype = dtype_t::getBuiltin(name_);
+    if ((&dtype == this) && (&dtype != &dtype::none)) {
+      j.clear();
+      j.asObject();
+      j["type"] = "builtin";
+      j["name"] = name_;
+      return;
+    }
+
     if (enum_) {
       return enum_->toJson(j, name);
     } else if (struct_) {
@@ -496,16 +507,9 @@ namespace occa {
 
     j.clear();
     j.asObject();
-    // A builtin is the registered object itself, not any dtype that shares its name
-    const dtype_t &dtype = dtype_t::getBuiltin(name_);
-    if ((&dtype == this) && (&dtype != &dtype::none)) {
-      j["type"] = "builtin";
-      j["name"] = name_;
-    } else {
-      j["type"]  = "custom";
-      j["name"]  = name_;
-      j["bytes"] = bytes_;
-    }
+    j["type"]  = "custom";
+    j["name"]  = name_;
+    j["bytes"] = bytes_;
   }
 
   dtype_t dtype_t::fromJson(const std::string &str) {
